@@ -82,3 +82,8 @@ def probes(case, layers, view, img):
 
 def req_meta_bytes(cfg, img, off, ln):
     return 0
+
+
+def meta_model(cfg):
+    return (1 << 62, 0, 0)
+    # (guest bytes covered by one second-level table, bytes of one such table, bytes of the top-level table read lazily)
